@@ -22,6 +22,7 @@ struct rt_area {
     int readable, writeable, skipdef; /* flags */
     int custom;                       /* callback-backed */
     int has_write;                    /* custom areas may lack the write callback */
+    int window;                       /* a reserved address window: no callbacks and no memory at all (register-less) */
 };
 
 struct rt_reg {
@@ -368,7 +369,7 @@ rt_build(struct rt_inst *in, const struct rt_desc *d)
                                | (a->skipdef ? REG_AF_SKIP_DEFAULTS : 0));
         if (via_macros) {
             if (a->custom) {
-                const RegisterArea t = MAKE_CUSTOM_AREA(rt_cb_read, a->has_write ? rt_cb_write : NULL, a->base, a->size, ra->flags);
+                const RegisterArea t = MAKE_CUSTOM_AREA(a->window ? NULL : rt_cb_read, a->has_write ? rt_cb_write : NULL, a->base, a->size, ra->flags);
                 *ra = t;
             } else {
                 /* the macro carries its own storage of constant size; the harness' poisoned block replaces it */
@@ -378,7 +379,7 @@ rt_build(struct rt_inst *in, const struct rt_desc *d)
                 ra->mem = in->store[i];
             }
         } else if (a->custom) {
-            ra->read = rt_cb_read;
+            ra->read = a->window ? NULL : rt_cb_read;
             ra->write = a->has_write ? rt_cb_write : NULL;
             ra->mem = NULL;
         } else {
@@ -641,6 +642,13 @@ rt_gen_wellformed(vh_rng *r, struct rt_desc *d, int allow_fail)
             a->readable = a->writeable = 1;
             a->has_write = 1;
         }
+        /* a register-less area may also be a mere reservation of addresses: no callbacks and no memory (it
+         * reads back zeroes and cannot be written); every flag combination occurs with it */
+        if (i == bare && i != large && f % 3 == 0) {
+            a->window = 1;
+            a->custom = 1;
+            a->has_write = 0;
+        }
         lastgap = gaps[vh_below(r, 4)];
         cursor += a->size + lastgap;
     }
@@ -671,7 +679,7 @@ rt_gen_wellformed(vh_rng *r, struct rt_desc *d, int allow_fail)
  * directly behind, in front of and between populated ones, a long densely packed area next to a register-less
  * one, everything adjacent. Registers are filled from the generator (types by size, constraints, defaults).
  * Returns 0 when k is past the list. */
-#define RT_NCURATED 16
+#define RT_NCURATED 20
 static int
 rt_gen_curated(vh_rng *r, unsigned k, struct rt_desc *d, int allow_fail)
 {
@@ -679,7 +687,7 @@ rt_gen_curated(vh_rng *r, unsigned k, struct rt_desc *d, int allow_fail)
     static const struct {
         uint32_t base;
         uint32_t size[3];
-        unsigned bare, custom, be, nowrite;
+        unsigned bare, custom, be, nowrite, window;
     } L[RT_NCURATED / 2] = {
         { 0, { 4, 4, 0 }, 2u, 0u, 0 },         /* populated, bare */
         { 0x100, { 3, 5, 0 }, 1u, 0u, 1 },     /* bare, populated */
@@ -688,7 +696,9 @@ rt_gen_curated(vh_rng *r, unsigned k, struct rt_desc *d, int allow_fail)
         { 0, { 40, 4, 0 }, 2u, 0u, 0 },        /* long dense area, bare */
         { 0xffffff00u, { 5, 30, 3 }, 1u, 2u, 0 }, /* bare, long dense callback area, populated: top of the address space */
         { 0x100, { 6, 6, 0 }, 0u, 2u, 0, 2u },    /* memory area, callback area without write callback (sanitise cannot repair it) */
-        { 0x7ffe, { 5, 4, 5 }, 0u, 5u, 1, 4u }    /* callback, memory, callback-without-write; across the 15-bit boundary */
+        { 0x7ffe, { 5, 4, 5 }, 0u, 5u, 1, 4u },   /* callback, memory, callback-without-write; across the 15-bit boundary */
+        { 0, { 16, 5, 0 }, 1u, 1u, 0, 1u, 1u },   /* a reserved window (no callbacks, no memory) at address 0, populated */
+        { 1, { 3, 2, 6 }, 2u, 2u, 1, 2u, 2u }     /* populated, reserved window, populated */
     };
     if (k >= RT_NCURATED)
         return 0;
@@ -703,6 +713,7 @@ rt_gen_curated(vh_rng *r, unsigned k, struct rt_desc *d, int allow_fail)
         a->readable = a->writeable = 1;
         a->custom = (int)((L[li].custom >> i) & 1u);
         a->has_write = !((L[li].nowrite >> i) & 1u);
+        a->window = (int)((L[li].window >> i) & 1u);
         cursor += a->size;
     }
     for (int i = 0; i < d->nareas && d->nregs < RT_MAXREGS - 2; i++) {
@@ -757,7 +768,7 @@ rt_describe(const struct rt_desc *d)
     for (int i = 0; i < d->nareas && o < 600; i++)
         o += (size_t)snprintf(b + o, sizeof b - o, " [%u+%u %s%s%s%s]", d->area[i].base, d->area[i].size,
                               d->area[i].readable ? "r" : "-", d->area[i].writeable ? "w" : "-",
-                              d->area[i].skipdef ? "S" : "", d->area[i].custom ? (d->area[i].has_write ? " cb" : " cb-nowrite") : "");
+                              d->area[i].skipdef ? "S" : "", d->area[i].window ? " window" : d->area[i].custom ? (d->area[i].has_write ? " cb" : " cb-nowrite") : "");
     o += (size_t)snprintf(b + o, sizeof b - o, " regs:");
     for (int i = 0; i < d->nregs && o < 640; i++)
         o += (size_t)snprintf(b + o, sizeof b - o, " %s@%u/%s", rt_tname[d->reg[i].type], d->reg[i].addr,
